@@ -19,3 +19,7 @@ pub fn classify_map_presence(t: &Term, map_some: bool) -> Option<String> {
 pub fn classify_panic(_t: &Term, _msg: &str) -> Option<String> {
   None
 }
+
+pub fn classify_rope(_clause: &str) -> Option<String> {
+  None
+}
